@@ -226,6 +226,21 @@ func init() {
 				b.BaseScore(), b.TemporalScore(), b.EnvironmentalScore(), "|", c.Score(), c.Nomenclature(), "|",
 				d.BaseScore(), d.TemporalScore(), d.EnvironmentalScore())
 		}},
+		Body{"v3 vectors with several base metrics missing / several defects", func(keep *[]Retained) string {
+			out := ""
+			for _, v := range []string{"CVSS:3.1/AV:N", "CVSS:3.1/E:H/RL:O/RC:C", "CVSS:3.1/A:N/I:L", "CVSS:3.1/UI:R/S:C/ZZ:N/AV:N/AV:A", "CVSS:3.1/"} {
+				_, e := gocvss31.ParseVector(v)
+				out += keepErr(keep, e) + " "
+				_, e = gocvss30.ParseVector("CVSS:3.0" + v[8:])
+				out += keepErr(keep, e) + " "
+			}
+			for _, v := range []string{"CVSS:4.0/AV:N/AC:L", "CVSS:4.0/ZZ:N/AV:N/AC:Q", "CVSS:4.0", "AV:N/AC:L/Au:N/C:Z/Q:R", "AV:N//"} {
+				_, e4 := gocvss40.ParseVector(v)
+				_, e2 := gocvss20.ParseVector(v)
+				out += keepErr(keep, e4) + " " + keepErr(keep, e2) + " "
+			}
+			return out
+		}},
 		Body{"Rating sequences A (3 packages)", func(keep *[]Retained) string {
 			out := ""
 			for _, sc := range []float64{2.0, 9.5, 11, 11, 2.0, -0.1, 0, 4.0} {
